@@ -809,6 +809,12 @@ func engineConc(x *X) {
 		c.cold = true
 		x.out.probe("cold-start")
 	}
+	if p.Knobs.FaultRate > 0 && w.root != "" {
+		// disk errors during the concurrent phase only (the preparation and the final Close meet healthy storage)
+		fs := x.sim.FS
+		fs.Rate, fs.FaultKinds, fs.FaultUnder = p.Knobs.FaultRate, p.Knobs.FaultKinds, x.root
+		defer func() { fs.Rate = 0 }()
+	}
 	var wg simrt.WaitGroup
 	nc := len(p.Clients) - 1
 	c.done = make([]bool, nc)
@@ -835,6 +841,7 @@ func engineConc(x *X) {
 	})
 	wg.Wait()
 	wd.Stop()
+	x.sim.FS.Rate = 0
 	x.opIdx = -1
 	if !c.closing {
 		w.settle()
